@@ -95,6 +95,8 @@ static Verdict run_flood(const Case &c) {
     for (uint64_t i = 0; i < n && v.ok; i++) {
         // pairwise distinct (Ethernet source, real source): an attacker inventing addresses
         Mac e = mac_from_u64(0x060000000000ULL + i), r = mac_from_u64(0x0A0000000000ULL + (i * 2654435761ULL & 0xFFFFFFFFFFULL));
+        if (mix & 8) r = m;                                  // every frame claims the active mapper as its real source (distinct Ethernet sources)
+        if (mix & 16) e = mac_from_u64(0x060000000001ULL);   // one Ethernet source, distinct real sources
         Bytes f = mk_simple(own, e, 0, (mix & 1) && (i & 1) ? OP_TRAIN : OP_PROBE, own, r, 0);
         memcpy(buf, f.data(), f.size());
         br_parse_frame(buf, w.ctx(ifi));
@@ -136,12 +138,12 @@ int main(int argc, char **argv) {
     Evidence ev;
     ev.rule = "(1) generated histories with every request type, noise/mutated frames, failing transmits, repeated icon requests, platform icon swaps and Resets at random points, repeated cyclically to 10^3 (quick) / 10^5 (thorough) frames; "
               "after EVERY frame the port's ledger must show <= record + observations-possibly-retained + icon-cache blocks, and after every topology Reset exactly the per-interface record (same byte count as after the first frame). "
-              "(2) floods of n pairwise-distinct Probes/Trains addressed to this station without a Query (and variants where the mapper queries every 1500 probes, i.e. partial drains while the flood refills) (n = 4096, 16384, 65536; thorough 100000, with interleaved Emit/QueryLargeTlv): retained bytes <= 1 MiB + icon and not growing after 16384. "
+              "(2) floods of n pairwise-distinct Probes/Trains addressed to this station without a Query (and variants where the mapper queries every 1500 probes, i.e. partial drains while the flood refills, where every frame claims the active mapper as its real source, and where one Ethernet source carries all the distinct real sources) (n = 4096, 16384, 65536; thorough 100000, with interleaved Emit/QueryLargeTlv): retained bytes <= 1 MiB + icon and not growing after 16384. "
               "non-trivial = history with >= 100 frames containing every request type, or a flood with n >= 4096; distinct = digest of the case";
     bool ok = true;
     // floods (deterministic family)
-    std::vector<std::pair<int64_t, int64_t>> floods = a.quick() ? std::vector<std::pair<int64_t, int64_t>>{{4096, 0}, {16384, 1}, {65536, 0}, {65536, 4}, {16384, 6}}
-                                                                 : std::vector<std::pair<int64_t, int64_t>>{{4096, 0}, {4096, 3}, {16384, 1}, {16384, 2}, {65536, 0}, {65536, 3}, {100000, 1}, {100000, 2}, {65536, 4}, {100000, 5}, {100000, 6}, {100000, 7}};
+    std::vector<std::pair<int64_t, int64_t>> floods = a.quick() ? std::vector<std::pair<int64_t, int64_t>>{{4096, 0}, {16384, 1}, {65536, 0}, {65536, 4}, {16384, 6}, {65536, 8}, {65536, 16}, {65536, 9}}
+                                                                 : std::vector<std::pair<int64_t, int64_t>>{{4096, 0}, {4096, 3}, {16384, 1}, {16384, 2}, {65536, 0}, {65536, 3}, {100000, 1}, {100000, 2}, {65536, 4}, {100000, 5}, {100000, 6}, {100000, 7}, {100000, 8}, {100000, 16}, {100000, 9}, {100000, 12}};
     for (size_t k = a.shard; k < floods.size() && ok; k += a.nshards) {
         HCfg h; h.part = 1; h.mtu = k % 2 ? 576 : 1500; h.icon = Bytes(300, 7);
         Case c; h.to_case(c);
@@ -158,6 +160,7 @@ int main(int argc, char **argv) {
         bool quick = a.quick();
         auto gen = rc::gen::exec([=] {
             HCfg h = *hg::cfg_gen();
+            if (*gx::chance(8)) { h.icon = Bytes((size_t)*gx::pick({32768, 32769, 40000, 65535, 65536, 70000}), 0x49); h.icon_state = 1; }   // a platform icon larger than anything a mapper can fetch: still one buffer, still released
             Case c; h.to_case(c);
             Mac own = h.ownmac(); size_t mtu = h.mtu;
             int n = *gx::range<int>(5, 100);
